@@ -609,14 +609,11 @@ theorem pivot_le_avgwave (T : Transc K) (hT : T.Lawful) (h : Admissible m M l) (
 
 end InRange
 
-/-- mean-log wavelength ≤ pivot wavelength (Jensen for the logarithm), over ℝ with the real
-functions, for bandpasses above 1 Angstrom -/
-theorem barlam_le_pivot_partial {m M : ℝ} {l : List (ℝ × ℝ)} (h : Admissible m M l) (hm : 1 < m) :
-    barlam Transc.real l ≤ pivot Transc.real l := by
-  have hT := Transc.real_lawful
-  have hm0 : (0 : ℝ) < m := lt_trans one_pos hm
-  rw [barlam_eq_exp_ratio Transc.real hT h hm, pivot_eq_sqrt_ratio Transc.real h hm0]
-  simp only [Transc.real_exp, Transc.real_sqrt, Transc.real_ln]
+/-- Jensen for the logarithm on the trapezoid sums, over ℝ:
+`exp(trapz(y ln x / x)/trapz(y/x)) ≤ sqrt(trapz(y·x)/trapz(y/x))` -/
+theorem exp_meanlog_le_sqrt_ratio {m M : ℝ} {l : List (ℝ × ℝ)} (h : Admissible m M l) (hm0 : 0 < m) :
+    Real.exp (integ (fun p => p.2 * Real.log p.1 / p.1) l / integ (fun p => p.2 / p.1) l) ≤
+      Real.sqrt (integ (fun p => p.2 * p.1) l / integ (fun p => p.2 / p.1) l) := by
   set A := integ (fun p => p.2 * p.1) l with hA
   set C := integ (fun p => p.2 / p.1) l with hC
   set D := integ (fun p => p.2 * Real.log p.1 / p.1) l with hD
@@ -655,6 +652,15 @@ theorem barlam_le_pivot_partial {m M : ℝ} {l : List (ℝ × ℝ)} (h : Admissi
       symm
       rw [Real.sqrt_eq_iff_mul_self_eq hz.le (Real.exp_pos _).le, ← Real.exp_add]
       rw [add_halves, Real.exp_log hz]
+
+/-- mean-log wavelength ≤ pivot wavelength, over ℝ with the real functions, for bandpasses above
+1 Angstrom -/
+theorem barlam_le_pivot_partial {m M : ℝ} {l : List (ℝ × ℝ)} (h : Admissible m M l) (hm : 1 < m) :
+    barlam Transc.real l ≤ pivot Transc.real l := by
+  have hm0 : (0 : ℝ) < m := lt_trans one_pos hm
+  rw [barlam_eq_exp_ratio Transc.real Transc.real_lawful h hm, pivot_eq_sqrt_ratio Transc.real h hm0]
+  simp only [Transc.real_exp, Transc.real_sqrt, Transc.real_ln]
+  exact exp_meanlog_le_sqrt_ratio h hm0
 
 /-- the documented chain `barlam ≤ pivot ≤ avgwave` over ℝ, above 1 Angstrom -/
 theorem mean_wavelength_order_partial {m M : ℝ} {l : List (ℝ × ℝ)} (h : Admissible m M l) (hm : 1 < m) :
@@ -705,6 +711,55 @@ theorem barlam_guard_witness (T : Transc K) (hT : T.Lawful) :
     · intro p hp; simp at hp; rcases hp with rfl | rfl <;> norm_num
     · intro p hp; simp at hp; rcases hp with rfl | rfl <;> norm_num
     · intro p hp; simp at hp; rcases hp with rfl | rfl <;> norm_num
+
+/-! ### 8. the documented formula (`barlamDoc`: the method after the pending patch) satisfies the
+claims at full strength, and agrees with the code above 1 Angstrom -/
+
+section Doc
+variable {m M : K} {l : List (K × K)}
+
+theorem barlamDoc_eq_exp_ratio (T : Transc K) (h : Admissible m M l) (hm : 0 < m) :
+    barlamDoc T l = T.exp (integ (fun p => p.2 * T.ln p.1 / p.1) l / integ (fun p => p.2 / p.1) l) := by
+  simp only [barlamDoc, if_neg (h.den_yox_pos hm).ne']
+
+theorem barlamDoc_in_range (T : Transc K) (hT : T.Lawful) (h : Admissible m M l) (hm : 0 < m) :
+    m ≤ barlamDoc T l ∧ barlamDoc T l ≤ M := by
+  rw [barlamDoc_eq_exp_ratio T h hm]
+  obtain ⟨h1, h2⟩ := barlam_ratio_bounds T hT h hm
+  have hM : 0 < M := by
+    obtain ⟨p, hp, _⟩ := h.somepos
+    exact lt_of_lt_of_le (h.xpos hm p hp) (h.hi p hp)
+  constructor
+  · have := exp_mono hT h1
+    rwa [hT.exp_ln m hm] at this
+  · have := exp_mono hT h2
+    rwa [hT.exp_ln M hM] at this
+
+/-- above 1 Angstrom the code computes the documented value -/
+theorem barlam_eq_barlamDoc (T : Transc K) (hT : T.Lawful) (h : Admissible m M l) (hm : 1 < m) :
+    barlam T l = barlamDoc T l := by
+  rw [barlam_eq_exp_ratio T hT h hm, barlamDoc_eq_exp_ratio T h (lt_trans one_pos hm)]
+
+theorem barlamDoc_scale (T : Transc K) (k : K) (hk : 0 < k) (l : List (K × K)) :
+    barlamDoc T (scaleY k l) = barlamDoc T l := by
+  simp only [barlamDoc, scale_ylnx, scale_yox]
+  by_cases hd : integ (fun p => p.2 / p.1) l = 0
+  · simp [hd]
+  · have : k * integ (fun p => p.2 / p.1) l ≠ 0 := mul_ne_zero hk.ne' hd
+    simp only [if_neg hd, if_neg this, mul_div_mul_left _ _ hk.ne']
+
+theorem barlamDoc_reverse (T : Transc K) (l : List (K × K)) : barlamDoc T l.reverse = barlamDoc T l := by
+  simp only [barlamDoc, integ_reverse, neg_eq_zero, neg_div_neg_eq]
+
+end Doc
+
+/-- documented mean-log ≤ pivot ≤ average wavelength for every admissible bandpass, over ℝ -/
+theorem barlamDoc_le_pivot_le_avgwave {m M : ℝ} {l : List (ℝ × ℝ)} (h : Admissible m M l) (hm : 0 < m) :
+    barlamDoc Transc.real l ≤ pivot Transc.real l ∧ pivot Transc.real l ≤ avgwave l := by
+  refine ⟨?_, pivot_le_avgwave Transc.real Transc.real_lawful h hm⟩
+  rw [barlamDoc_eq_exp_ratio Transc.real h hm, pivot_eq_sqrt_ratio Transc.real h hm]
+  simp only [Transc.real_exp, Transc.real_sqrt, Transc.real_ln]
+  exact exp_meanlog_le_sqrt_ratio h hm
 
 /-! ### non-vacuity -/
 
